@@ -131,7 +131,7 @@ def rule_Z3(ctx: Ctx) -> None:
     f = ctx.index.func(f"{LM}._remove_isolated_cells")
     img = f.params()[0]
     wm = X.assignments_to(f.node, "wall_mask")
-    ok_w = len(wm) == 1 and X.U(wm[0]).replace(" ", "") == f"np.all({img}==PixelColors.WALL,axis=-1)"
+    ok_w = len(wm) == 1 and X.same_expr(wm[0], f"np.all({img}==PixelColors.WALL,axis=-1)")
     pad = X.assignments_to(f.node, "padded_wall_mask")
     ok_p = False
     if len(pad) == 1 and isinstance(pad[0], ast.Call) and dotted_of(pad[0].func) == "np.pad":
